@@ -27,3 +27,10 @@ def r11_1_calendar_retention(ctx: Ctx) -> RuleResult:
     files = anchor_files("C11")
     check_retention(ctx, rr, lambda f: f.mod.rel in files)
     return rr
+
+
+@rule("C11")
+def r11_7_units(ctx: Ctx) -> RuleResult:
+    from ..dims import units_rule
+
+    return units_rule(ctx, "R11.7", "C11", 40)
